@@ -101,8 +101,12 @@ def c19(report, rng, tier, findings):
             # as a later conjunct, or alone
             v0 = case['vars'][0][0]
             pool_ = gen.FALSY + [('i', 1), ('i', 2)]
-            cont = ('lit', ('l',) + tuple(rng.sample(pool_, rng.randint(1, len(pool_)))))
+            cont = ('lit', ('l',) + tuple(rng.sample(pool_, rng.randint(0, len(pool_)))))       # possibly EMPTY
+            if rng.random() < 0.3:
+                cont = ('attr', 'items', ('var', v0))          # the object's own (possibly empty) collection
             mem = ('in', ('attr', 'b', ('var', v0)), cont) if rng.random() < 0.7 else ('contains', cont, ('attr', 'b', ('var', v0)))
+            if rng.random() < 0.35:
+                mem = ('not', mem)
             g_ = gen.CondGen(rng, cfg, [v[0] for v in case['vars']])
             case['cond'] = [rng.choice([('and', g_.atom(), mem), ('and', mem, g_.atom()), mem, ('or', g_.atom(), mem)])]
             report.count('membership_of_a_falsy_item')
@@ -379,6 +383,9 @@ def c18(report, rng, tier, findings):
         cfg = gen.Cfg(n_vars=(nv, nv), n_objs=(2, 4 if nv < 3 else 3), depth=3 if nv < 3 else 2, empty_domain=0.0,
                       select_all=0.3, single_top=0.4)
         base = gen.gen_case(rng, cfg, f'c{i}')
+        if nv >= 2 and rng.random() < 0.12:
+            gen.apply_or_template(rng, cfg, base)
+            report.count('template_disjunction_binds_unselected_variable')
         if len(base['sel']) == 1:
             base['entity'] = True
         rw = rewrite_case(rng, base)
